@@ -491,3 +491,8 @@ def run(ctx):
         "events are observed on the subscriber's connection (exact after a fence call) and on the generated "
         "Subscribe<Prop> channel (bounded wait T_BOUND = 5 s / 20 s thorough)",
     ]
+
+    # the logging services (LogManager, providers, listeners: ManagerLog.tla, design-notes/EXT-logger.md): the
+    # listener's logLevel property is an instance of C14 (verdicts), everything else is reported as observation
+    import ext_logger
+    ext_logger.run(ctx)
